@@ -7,7 +7,8 @@ from harness import simprops as SP
 
 ID = 'C12'
 BRIDGE_IMPORTS = 'From Eudoxia Require Import Model.SchedSrc.\n'
-BRIDGE = [('sched_priority', 'ext_sched_priority = sched_priority_src', 'reflexivity.')]
+BRIDGE = [('sched_priority', 'ext_sched_priority = sched_priority_src', 'reflexivity.'),
+          ('sched_priority_pool', 'ext_sched_priority_pool = sched_priority_pool_src', 'reflexivity.')]
 MASK = S.M_DEC | S.M_RES | S.M_POOLS | S.M_STATES
 ASSUMPTIONS = ['"ready, pending operator": state PENDING with all parents COMPLETED, of a pipeline that has arrived; '
                'operators of a retry that the scheduler dropped (FAILED) are not pending']
@@ -24,8 +25,31 @@ def waiting_ready(run, rd):
     return out
 
 
+def monitor_pp(run):
+    """the clauses of C12 that apply to priority-pool: strict order within the shared pool 0 (query before
+    interactive) and work conservation: a ready pending operator waits only if the pool it may use (0 for query and
+    interactive, 1 for batch) has no free CPU or no free RAM after the round; never a suspension"""
+    for rd in SP.rounds(run):
+        t = rd.t
+        wait = waiting_ready(run, rd)
+        if rd.susp:
+            yield f'tick {t}: priority-pool issued {len(rd.susp)} suspension(s)'
+        if wait[1] and any(a[3] == 2 for a in rd.asg):
+            yield (f'tick {t}: interactive work assigned on the shared pool while ready pending query operators '
+                   f'{wait[1][:3]} are left waiting')
+        for cls, pi in ((1, 0), (2, 0), (3, 1)):
+            if wait[cls]:
+                fc, fr = rd.free_after(pi)
+                if fc > 0 and fr > 0:
+                    yield (f'tick {t}: ready pending operator {wait[cls][0]} of priority {cls} left waiting although '
+                           f'pool {pi}, the pool it may use, still has {fc} CPUs and {float(fr)} GB free after the round')
+
+
 def monitor(run):
     r = run.r
+    if r['algo'] == 'priority-pool':
+        yield from monitor_pp(run)
+        return
     first = {}
     susp_cids = set()
     for rd in SP.rounds(run):
@@ -93,6 +117,8 @@ def run(ctx):
     out = SP.run_streams(ctx, MASK, monitor, 'priority-contract', [
         ('G-sim-priority', 200, 3000, dict(algo='priority')),
         ('G-sim-saturate-priority', 60, 1000, dict(saturate='priority')),
+        ('G-sim-ppool', 80, 1500, dict(algo='priority-pool')),
+        ('G-sim-saturate-ppool', 60, 1000, dict(saturate='priority-pool')),
     ])
     st = collections.Counter(out['dist'])
     nt = 0
